@@ -26,8 +26,8 @@ RULE = (
     "for every t in 0..2*10^6 (quick) / 0..2^26 (thorough) plus samples up to 2^32-1 and every "
     "byte boundary, in both directions; timedeltas that are not multiples of 10 ms may floor "
     "or round; Counter/Counter64 for integers in and far outside the range (boundaries +-3, "
-    "2^k +-1 up to 2^130, random); unsigned application types decoded from 1..9-octet contents "
-    "with the high bit set; IpAddress at both ends, byte boundaries and samples; each value "
+    "2^k +-1 up to 2^130, random); unsigned application types decoded from 1..8-octet contents "
+    "with the high bit set (in-range values only: up to the type's width, plain and with the canonical leading zero octet); IpAddress at both ends, byte boundaries and samples; each value "
     "encoded by puresnmp and decoded by x690 AND by the independent codec, and encoded by the "
     "independent codec and decoded by puresnmp. Record-only contracts on the constructors run "
     "alongside. Non-trivial: every evaluation; distinct by (class, value)."
@@ -72,7 +72,11 @@ def check_offgrid(R, t, micro):
 
 
 def check_counter(R, cls, bits, n):
-    v = cls(n).value
+    try:
+        v = cls(n).value
+    except Exception as exc:  # noqa: BLE001
+        R.violation({"kind": "counter", "cls": cls.__name__, "n": n}, "%s(%d) raised %r" % (cls.__name__, n, exc), None)
+        return
     want = max(n, 0) % (1 << bits)
     if v != want or not 0 <= v < (1 << bits):
         R.violation({"kind": "counter", "cls": cls.__name__, "n": n}, "%s(%d).value == %r, expected %d" % (cls.__name__, n, v, want), None)
@@ -115,8 +119,13 @@ def check_unsigned_decode(R, tag, kind, cls, content):
         pass
     raw = bytes([tag, len(content)]) + content
     want = int.from_bytes(content, "big", signed=False)
-    obj, _ = x690.decode(raw)
-    if type(obj) is not cls or obj.value != want or obj.value < 0:
+    try:
+        obj, _ = x690.decode(raw)
+        value = obj.value
+    except Exception as exc:  # noqa: BLE001
+        R.violation({"kind": "unsigned-decode", "raw": raw.hex()}, "decoding %s (an in-range %s) raised %r" % (raw.hex(), cls.__name__, exc), None)
+        return
+    if type(obj) is not cls or value != want or value < 0:
         R.violation({"kind": "unsigned-decode", "raw": raw.hex()}, "%s decoded as %r, expected non-negative %d" % (raw.hex(), obj, want), None)
         return
     R.mon["unsigned_decode_checked"] += 1
@@ -201,11 +210,15 @@ def run(R):
     # ---- unsigned decoding from 1..9 octets with the high bit set -----------
     if R.shard == 0:
         for tag, kind, cls in ((0x41, "c32", Counter), (0x42, "g32", Gauge), (0x43, "tt", TimeTicks), (0x46, "c64", Counter64)):
-            for nbytes in range(1, 10):
+            width = 8 if kind == "c64" else 4
+            # values WITHIN the type's range only: up to `width` octets with the high bit
+            # set (the style of the devices of issue #75) and the canonical form with a
+            # leading zero octet
+            for nbytes in range(1, width + 1):
                 for lead in (0x80, 0xFF, 0xC3):
                     content = bytes([lead]) + bytes(rng.getrandbits(8) for _ in range(nbytes - 1))
                     check_unsigned_decode(R, tag, kind, cls, content)
-                    check_unsigned_decode(R, tag, kind, cls, b"\x00" + content[:8])
+                    check_unsigned_decode(R, tag, kind, cls, b"\x00" + content)
                     R.case(("unsigned", tag, content.hex()), True)
         for n in (0, 1, 5, 127, 128, 300):
             data = bytes(rng.getrandbits(8) for _ in range(n))
